@@ -120,14 +120,20 @@ Fixpoint wait_log (s : nd * Z) (ops : list op) : list (Z * Z) :=
       end
   end.
 
-(* what an observer outside the object sees after each operation:
-   the FPGA clock, the alarm the HAL holds, the number of releases so far *)
+(* what an observer outside the object sees after each wait()/free():
+   the FPGA clock, the alarm the HAL holds, the number of releases so far
+   (nothing is recorded after a body: it only moves the clock) *)
 Definition snap : Type := Z * option Z * nat.
 Definition snap_of (s : nd * Z) : snap := (snd s, alarm (fst s), released (fst s)).
 Fixpoint snaps (s : nd * Z) (ops : list op) : list snap :=
   match ops with
   | [] => []
-  | o :: r => let s' := step s o in snap_of s' :: snaps s' r
+  | o :: r =>
+      let s' := step s o in
+      match o with
+      | Body _ => snaps s' r
+      | _ => snap_of s' :: snaps s' r
+      end
   end.
 
 (* the schedules of the property: a list of loop-body durations, each followed
